@@ -449,7 +449,7 @@ func (u *H1Upstream) OnData(c *sim.Conn, b []byte) {
 			continue
 		}
 		att := len(r.Upstream)
-		up := &UpRec{At: u.S.Now(), ConnID: c.ID, Host: u.Host, Att: att, Frame: m.Raw, H: m}
+		up := &UpRec{At: u.S.Now(), MosnAt: c.DeliveringAt, ConnID: c.ID, Host: u.Host, Att: att, Frame: m.Raw, H: m}
 		if len(r.Script) > 0 {
 			if att < len(r.Script) {
 				up.Act = r.Script[att]
